@@ -245,7 +245,7 @@ static void extras(hwloc_topology_t t, const char *tag) {
     hwloc_distances_get(t, &nr, ds, 0, 0);
     for (unsigned i = 0; i < nr; i++) {
       const char *nm = hwloc_distances_get_name(t, ds[i]);
-      fprintf(fops, "X %s dist ", tag); if (nm) { fputs("r:", fops); fhexs(fops, nm); } else fputc('-', fops);
+      fprintf(fops, "X %s dist ", tag); if (nm) { fputs("h:", fops); fhexs(fops, nm); } else fputc('-', fops);
       fprintf(fops, " %lu %u", ds[i]->kind, ds[i]->nbobjs);
       for (unsigned k = 0; k < ds[i]->nbobjs; k++) if (ds[i]->objs[k]) fprintf(fops, " %s:%llu", tyname(ds[i]->objs[k]), (unsigned long long) ds[i]->objs[k]->gp_index); else fputs(" null", fops);
       fputs(" |", fops);
@@ -471,46 +471,6 @@ static size_t strip_support(char *x, size_t len) {
   return o;
 }
 
-/* Known hwloc defect seen through this property: replacing a mergeable Group by an equal dont_merge Group keeps the object
- * cell (so cached distances objs[] stay "valid") but gives it a new gp_index; the internal indexes[] of a distances matrix over
- * Groups then name an object that no longer exists, the exporter writes those stale indexes and the importer drops the matrix.
- * Detected here through the private structures (this translation unit sees private/private.h). */
-static int stale_distances(hwloc_topology_t t) {
-  for (struct hwloc_internal_distances_s *d = t->first_dist; d; d = d->next) {
-    if (!(d->iflags & HWLOC_INTERNAL_DIST_FLAG_OBJS_VALID)) continue;
-    for (unsigned i = 0; i < d->nbobjs; i++) {
-      hwloc_obj_t o = d->objs[i];
-      if (!o) continue;
-      hwloc_obj_type_t ty = d->different_types ? d->different_types[i] : d->unique_type;
-      uint64_t want = (!d->different_types && HWLOC_DIST_TYPE_USE_OS_INDEX(ty)) ? o->os_index : o->gp_index;
-      if (d->indexes[i] != want) return 1;
-    }
-  }
-  /* same root cause for memory attributes: cached target / initiator objects whose gp_index no longer matches the stored one */
-  for (unsigned id = 0; id < t->nr_memattrs; id++) {
-    struct hwloc_internal_memattr_s *im = &t->memattrs[id];
-    if (!(im->iflags & HWLOC_IMATTR_FLAG_CACHE_VALID) || (im->iflags & HWLOC_IMATTR_FLAG_CONVENIENCE)) continue;
-    for (unsigned j = 0; j < im->nr_targets; j++) {
-      struct hwloc_internal_memattr_target_s *tg = &im->targets[j];
-      if (tg->obj && tg->obj->gp_index != tg->gp_index) return 1;
-      if (im->flags & HWLOC_MEMATTR_FLAG_NEED_INITIATOR)
-        for (unsigned k = 0; k < tg->nr_initiators; k++) {
-          struct hwloc_internal_location_s *l = &tg->initiators[k].initiator;
-          if (l->type == HWLOC_LOCATION_TYPE_OBJECT && l->location.object.obj && l->location.object.obj->gp_index != l->location.object.gp_index) return 1;
-        }
-    }
-  }
-  return 0;
-}
-
-/* Known hwloc defect: importing a v2-format XML whose distances have a latency kind and no name runs strcmp(NULL, "XGMIHops")
- * (topology-xml.c, "XGMIHops was latency in v2"). */
-static int unnamed_latency_distances(hwloc_topology_t t) {
-  for (struct hwloc_internal_distances_s *d = t->first_dist; d; d = d->next)
-    if (!d->name && (d->kind & HWLOC_DISTANCES_KIND_VALUE_LATENCY)) return 1;
-  return 0;
-}
-
 /* Precondition: the initiators of a memattr target are pairwise distinct.  Known core behaviour: restrict clips initiator cpusets
  * to the remaining cpuset and may make two of them equal (two values for one (target, initiator) pair); the XML importer then
  * merges them (the second value replaces the first). */
@@ -532,27 +492,12 @@ static int duplicate_initiators(hwloc_topology_t t) {
   return 0;
 }
 
-/* Precondition of the property ("any loaded topology" is a well-formed one, C01/C02): an object has its four sets together.
- * Known core defect: inserting a dont_merge Group equal to an existing dont_merge Group twice leaves an object with a cpuset
- * and a NULL complete_cpuset; the XML exporter then passes NULL to hwloc_bitmap_asprintf() and crashes. */
-static int missing_sets(hwloc_topology_t t) {
-  recollect(t);
-  for (unsigned i = 0; i < nobjs; i++) {
-    hwloc_obj_t o = objs[i];
-    int n = !!o->cpuset + !!o->complete_cpuset + !!o->nodeset + !!o->complete_nodeset;
-    if (n != 0 && n != 4) return 1;
-  }
-  return 0;
-}
-
-/* Precondition: the original passes hwloc's own hwloc_topology_check() (run in a forked grandchild, it aborts on failure).
- * Histories of modifying calls can leave topologies that do not (children not ordered by complete_cpuset after a Group insertion,
- * memory children out of order after restrict): C02/C08 defects; the XML importer re-sorts such children, so the round trip
- * cannot be the identity on them. */
+/* The original must pass hwloc's own hwloc_topology_check() (run in a forked grandchild, it aborts on failure): a history of
+ * modifying calls that leaves a topology which does not is reported as a failed verdict (CMP original-fails-check). */
 static int original_fails_check(hwloc_topology_t t) {
   fflush(NULL);
   pid_t p = fork();
-  if (p == 0) { int fd = open("/dev/null", O_WRONLY); if (fd >= 0) { dup2(fd, 2); } hwloc_topology_check(t); _exit(0); }
+  if (p == 0) { int fd = open("/dev/null", O_WRONLY); if (fd >= 0 && !getenv("VERIF_XMLRT_SHOW_CHECK")) { dup2(fd, 2); } hwloc_topology_check(t); _exit(0); }
   int st = 0; waitpid(p, &st, 0);
   return !(WIFEXITED(st) && WEXITSTATUS(st) == 0);
 }
@@ -561,11 +506,8 @@ static void roundtrip(char mode, int fmt) {
   unsigned long xflags = fmt == 2 ? HWLOC_TOPOLOGY_EXPORT_XML_FLAG_V2 : 0;
   hwloc_topology_t t2 = NULL;
   size_t len1 = 0, len2 = 0; char *x1 = NULL, *x2 = NULL;
-  if (missing_sets(topo)) { emit(".", "KNOWN original-object-with-partial-sets"); flush2(); return; }
-  if (original_fails_check(topo)) { emit(".", "KNOWN original-fails-topology-check"); flush2(); return; }
-  if (duplicate_initiators(topo)) { emit(".", "KNOWN duplicate-memattr-initiators"); flush2(); return; }
-  if (stale_distances(topo) && !getenv("VERIF_XMLRT_JUDGE_STALE_DIST")) { emit(".", "KNOWN stale-gp-index-after-group-replacement"); flush2(); return; }
-  if (fmt == 2 && unnamed_latency_distances(topo) && !getenv("VERIF_XMLRT_V2_UNNAMED")) { emit(".", "KNOWN v2-unnamed-latency-distances"); flush2(); return; }
+  if (original_fails_check(topo)) { emit("EQ ok", "CMP original-fails-check"); flush2(); return; }
+  if (duplicate_initiators(topo) && !getenv("VERIF_XMLRT_JUDGE_DUP_INITIATORS")) { emit(".", "KNOWN duplicate-memattr-initiators"); flush2(); return; }
   dump_both(topo, "o"); extras(topo, "o");
   ev_open(); ev_tag = "o"; ev_lastseq = -1; nxobjs = 0; xcollect(hwloc_get_root_obj(topo));
   x1 = do_export(topo, mode, xflags, xmlpath1, &len1);
@@ -617,15 +559,9 @@ static const char *strpool[] = {
   "line1\nline2", "tab\there", "cr\rhere", " lead", "trail ", "", "caf\xc3\xa9", "\xff\xfe", "hi\x01\x02there", "\x7f", "a\x80" "b", "]]>", "<!--x-->",
   "=\"", "a=\"b\"", "/>", "</object>", "0123456789012345678901234567890123456789012345678901234567890123456789", "Backend", "hwlocVersion", "Die", "&quot", "&#9", "&#13;&#10;" };
 #define NPOOL (sizeof strpool / sizeof strpool[0])
-/* Backward-compatibility rule of the importer (all format versions): a Group whose subtype is "Die" or whose kind is
- * HWLOC_GROUP_KIND_INTEL_DIE (104) is reloaded as a Die object.  Such Groups are not generated unless VERIF_XMLRT_DIE_GROUPS is set. */
-static const char *pool_str(void) { const char *s; do s = strpool[rng_below(NPOOL)]; while (!strcmp(s, "Die") && !getenv("VERIF_XMLRT_DIE_GROUPS")); return s; }
+static const char *pool_str(void) { return strpool[rng_below(NPOOL)]; }
 static const char *plain_str(void) { static const char *p[] = {"Foo", "Bar", "Backend", "X", "name with space", "v1.2"}; return p[rng_below(6)]; }
 static const char *some_str(void) { return rng_chance(65) ? pool_str() : plain_str(); }
-/* names that reach the XML without hwloc__xml_export_safestrdup (distances): only XML-valid characters unless
- * VERIF_XMLRT_RAW_DISTNAMES is set (finding: such names are exported raw and the XML cannot be reloaded) */
-static int all_valid(const char *s) { for (; *s; s++) if (!xml_valid((unsigned char) *s)) return 0; return 1; }
-static const char *dist_str(void) { const char *s; do s = some_str(); while (!getenv("VERIF_XMLRT_RAW_DISTNAMES") && !all_valid(s)); return s; }
 static int gen_fmt = 3;
 
 static void gen_set(char *dst, size_t cap, hwloc_const_bitmap_t universe) {
@@ -687,14 +623,13 @@ static void gen_op(char *line, size_t cap) {
     }
     hex_of_set(a, sizeof a, hwloc_bitmap_iszero(c) && n ? NULL : c);
     hex_of_set(b, sizeof b, n);
-    snprintf(line, cap, "OP group %s %s %d %u %u", a, b, rng_chance(40), ({ unsigned k = rng_chance(50) ? 0 : rng_below(1100); if (k == 104 && !getenv("VERIF_XMLRT_DIE_GROUPS")) k = 105; k; }), rng_chance(50) ? 0 : rng_below(5));
+    snprintf(line, cap, "OP group %s %s %d %u %u", a, b, rng_chance(40), rng_chance(50) ? 0 : rng_chance(10) ? 104 : rng_below(1100), rng_chance(50) ? 0 : rng_below(5));
     hwloc_bitmap_free(c); hwloc_bitmap_free(n);
   } else if (r < 78) {
     static const unsigned long kinds[] = {5, 6, 9, 10, 34, 33, 0, 0, 2, 22, 26, 4, 8};
     static const unsigned long fls[] = {0, 0, 0, 1, 3};
-    hexs(h1, dist_str());
-    /* finding: importing a v2-format XML with an unnamed latency matrix calls strcmp(NULL, "XGMIHops"); unnamed only in v3 unless VERIF_XMLRT_V2_UNNAMED */
-    int noname = rng_chance(25) && (gen_fmt == 3 || getenv("VERIF_XMLRT_V2_UNNAMED"));
+    hexs(h1, some_str());
+    int noname = rng_chance(25);
     unsigned n = 2 + rng_below(7);
     if (rng_chance(30)) snprintf(line, cap, "OP distadd H %u %u %lu %lu %llu %s", rng_below(nobjs), n, kinds[rng_below(13)] | (rng_chance(70) ? 16 : 0), 0UL, (unsigned long long) rng_below(100000), noname ? "-" : h1);
     else {
